@@ -1,6 +1,6 @@
 ------------------------------ MODULE Gen_IO ------------------------------
 (* Enumerates the input domain of the store check (C25) and writes it as ndjson:                       *)
-(*   pairs of (source shape, source chunk grid, target = source extended by an offset region),        *)
+(*   pairs of (source shape, source chunk grid, target = source extended by an offset region, with or without a step),        *)
 (*   lock kind, compute, return_stored; one or two source/target pairs.                               *)
 EXTENDS ChunkAlgebra, Json, IOUtils, TLC
 CONSTANTS Tier
@@ -10,11 +10,15 @@ GridsFor(sh) == IF Tier = "quick" /\ Len(sh) > 1 THEN {g \in GridsOf(sh) : \A a 
 Offsets(sh) == IF Len(sh) = 1 THEN {<<0>>, <<2>>} ELSE IF Len(sh) = 2 THEN {<<0, 0>>, <<1, 2>>} ELSE {<<0, 0, 0>>, <<1, 0, 2>>}
 \* a pair: source shape / grid, target shape (source shape + offset + one trailing element per axis), region offset;
 \* useregion FALSE: target has exactly the source's shape and no region is passed
-PairSpecs == UNION {{[shape |-> sh, grid |-> g, offset |-> off, useregion |-> ur] : g \in GridsFor(sh), off \in Offsets(sh), ur \in {TRUE, FALSE}}
+\* region steps (slices with a step: source element i goes to target position offset + step * i)
+Ones(sh) == [a \in 1..Len(sh) |-> 1]
+StepsFor(sh) == IF Len(sh) = 1 THEN {<<1>>, <<2>>} ELSE IF Len(sh) = 2 THEN {<<1, 1>>, <<2, 1>>, <<1, 3>>} ELSE {<<1, 1, 1>>, <<1, 2, 1>>}
+PairSpecs == UNION {{[shape |-> sh, grid |-> g, offset |-> off, useregion |-> ur, step |-> st] :
+                        g \in GridsFor(sh), off \in Offsets(sh), ur \in {TRUE, FALSE}, st \in {t \in StepsFor(sh) : TRUE}}
                     : sh \in Shapes}
-Singles == {<<p>> : p \in {q \in PairSpecs : q.useregion \/ \A a \in 1..Len(q.offset) : q.offset[a] = 0}}
+Singles == {<<p>> : p \in {q \in PairSpecs : q.useregion \/ (q.step = Ones(q.shape) /\ \A a \in 1..Len(q.offset) : q.offset[a] = 0)}}
 \* two pairs: the first over every spec, the second a fixed 1-D one with a different offset (regions differ per pair)
-Second == [shape |-> <<3>>, grid |-> <<<<1, 2>>>>, offset |-> <<1>>, useregion |-> TRUE]
+Second == [shape |-> <<3>>, grid |-> <<<<1, 2>>>>, offset |-> <<1>>, useregion |-> TRUE, step |-> <<1>>]
 Doubles == {<<p, Second>> : p \in {q \in PairSpecs : q.useregion /\ Len(q.shape) <= 2}}
 Cases == {[pairs |-> ps, lock |-> lk, compute |-> c, return_stored |-> rs] :
             ps \in Singles \cup Doubles, lk \in {"true", "false", "object"}, c \in {TRUE, FALSE}, rs \in {TRUE, FALSE}}
